@@ -4734,6 +4734,9 @@ py_statements = [
             "{data_var} = static_cast<{cxx_T} *>(PyArray_DATA({py_var}));",
             "{cxx_var}.assign(\t{data_var},\t {data_var}+PyArray_SIZE({py_var}));",
         ],
+        cleanup=[
+            "{PY_cleanup_decref}({py_var});",
+        ],
         fail=[
             "Py_XDECREF({py_var});",
         ],
